@@ -7,8 +7,8 @@
 EXTENDS PeerStreams, Json, IOUtils, TLC
 
 Rec == ndJsonDeserialize(IOEnv.TRACE)
-VARIABLES l, scn, role, st, closed, drv, probe, stops, ok, why
-vars == <<l, scn, role, st, closed, drv, probe, stops, ok, why>>
+VARIABLES l, scn, role, st, closed, drv, probe, stops, lag, ok, why
+vars == <<l, scn, role, st, closed, drv, probe, stops, lag, ok, why>>
 E == Rec[l]
 
 IsUni(sid) == (sid \div 2) % 2 = 1
@@ -35,13 +35,15 @@ Check ==
 
 Judge(tag) == IF ok /\ ~Check THEN <<FALSE, tag>> ELSE <<ok, why>>
 
-Init == l = 1 /\ scn = "" /\ role = "server" /\ st = InitState /\ closed = -1 /\ drv = <<>> /\ probe = <<>> /\ stops = {} /\ ok = TRUE /\ why = ""
+Init == l = 1 /\ scn = "" /\ role = "server" /\ st = InitState /\ closed = -1 /\ drv = <<>> /\ probe = <<>> /\ stops = {} /\ lag = FALSE /\ ok = TRUE /\ why = ""
 
 Reset == /\ E.ev = "reset"
-         /\ scn' = E.scn /\ role' = E.role /\ st' = InitState /\ closed' = -1 /\ drv' = <<>> /\ probe' = <<>> /\ stops' = {} /\ ok' = TRUE /\ why' = ""
+         /\ scn' = E.scn /\ role' = E.role /\ st' = InitState /\ closed' = -1 /\ drv' = <<>> /\ probe' = <<>> /\ stops' = {} /\ lag' = FALSE /\ ok' = TRUE /\ why' = ""
 
+\* lag: the previous step was applied without letting the endpoint run - there is no quiescent point to judge before this step
 EnvStep == /\ E.ev = "step"
-           /\ LET j == Judge(<<"before step", E.i>>) IN ok' = j[1] /\ why' = j[2]
+           /\ LET j == IF lag THEN <<ok, why>> ELSE Judge(<<"before step", E.i>>) IN ok' = j[1] /\ why' = j[2]
+           /\ lag' = (("no_run" \in DOMAIN E) /\ E.no_run = TRUE)
            \* a server application that was told "no more requests" stops driving the connection: later input is not examined
            /\ st' = CASE \E i \in DOMAIN drv : drv[i].k = "none" -> st
                       [] E.op = "deliver" /\ IsUni(E.sid) -> Deliver(st, E.sid, E.bytes, role)
@@ -53,23 +55,23 @@ EnvStep == /\ E.ev = "step"
 
 DriverRet == /\ E.ev = "ret" /\ E.api \in {"accept", "wait_idle"}
              /\ drv' = Append(drv, IF E.res.k = "conn_err" THEN [k |-> "conn_err", origin |-> E.res.origin, code |-> E.res.code] ELSE [k |-> E.res.k])
-             /\ UNCHANGED <<scn, role, st, closed, probe, stops, ok, why>>
+             /\ UNCHANGED <<scn, role, st, closed, probe, stops, lag, ok, why>>
 
 ProbeRet == /\ E.ev = "ret" /\ E.api = "send_request"
             /\ probe' = <<IF E.res.k = "conn_err" THEN [k |-> "conn_err", origin |-> E.res.origin, code |-> E.res.code] ELSE [k |-> E.res.k]>>
-            /\ UNCHANGED <<scn, role, st, closed, drv, stops, ok, why>>
+            /\ UNCHANGED <<scn, role, st, closed, drv, stops, lag, ok, why>>
 
 Close == /\ E.ev = "h3_close"
          /\ closed' = IF closed = -1 THEN E.code ELSE closed
-         /\ UNCHANGED <<scn, role, st, drv, probe, stops, ok, why>>
+         /\ UNCHANGED <<scn, role, st, drv, probe, stops, lag, ok, why>>
 
 Stop == /\ E.ev = "h3_stop"
         /\ stops' = stops \cup {E.sid}
-        /\ UNCHANGED <<scn, role, st, closed, drv, probe, ok, why>>
+        /\ UNCHANGED <<scn, role, st, closed, drv, probe, lag, ok, why>>
 
 Bad == /\ E.ev \in {"panic", "late", "livelock", "harness_panic"}
        /\ ok' = FALSE /\ why' = IF ok THEN <<"event", E.ev>> ELSE why
-       /\ UNCHANGED <<scn, role, st, closed, drv, probe, stops>>
+       /\ UNCHANGED <<scn, role, st, closed, drv, probe, stops, lag>>
 
 \* RFC 9114 6.2: a stream of unknown type is either aborted (STOP_SENDING) or its data discarded - never left unread
 UnknownStreamsOk == st.err # NoErr \/ \A sid \in st.mustStop : sid \in stops \/ ~(\E i \in DOMAIN E.unread : E.unread[i].sid = sid)
@@ -78,11 +80,11 @@ Quiesce == /\ E.ev = "quiesce"
                   j == IF j0[1] /\ ~UnknownStreamsOk THEN <<FALSE, <<"bytes of an unknown stream left unread and not stopped">>>> ELSE j0 IN
                  /\ ok' = j[1] /\ why' = j[2]
                  /\ IF j[1] THEN TRUE ELSE PrintT(<<"REJECT", scn, ToJson(j[2])>>)
-           /\ UNCHANGED <<scn, role, st, closed, drv, probe, stops>>
+           /\ UNCHANGED <<scn, role, st, closed, drv, probe, stops, lag>>
 
 Other == /\ ~(E.ev \in {"reset", "step", "h3_close", "h3_stop", "panic", "late", "livelock", "harness_panic", "quiesce"})
          /\ ~(E.ev = "ret" /\ E.api \in {"accept", "wait_idle", "send_request"})
-         /\ UNCHANGED <<scn, role, st, closed, drv, probe, stops, ok, why>>
+         /\ UNCHANGED <<scn, role, st, closed, drv, probe, stops, lag, ok, why>>
 
 Next == l <= Len(Rec) /\ l' = l + 1 /\ (Reset \/ EnvStep \/ DriverRet \/ ProbeRet \/ Close \/ Stop \/ Bad \/ Quiesce \/ Other)
 Spec == Init /\ [][Next]_vars
